@@ -32,38 +32,9 @@
 #include "dsa_reg.h"
 #include <stdint.h>
 
-/* ---- allocator with a one-shot failure ---- */
-static long ht_fail_countdown = -1;
-static void *ht_malloc(size_t size)
-{
-  if (size == 0) {
-    return NULL; /* as the library's default allocator */
-  }
-  if (ht_fail_countdown >= 0) {
-    if (ht_fail_countdown-- == 0) {
-      return NULL;
-    }
-  }
-  return malloc(size);
-}
-static void *ht_realloc(void *p, size_t size)
-{
-  return realloc(p, size);
-}
-static void ht_free(void *p)
-{
-  free(p);
-}
-static int ht_alloc_installed;
-static void ht_install_alloc(void)
-{
-  if (!ht_alloc_installed) {
-    /* sets the allocator; the extra init reference is dropped again right away */
-    ares_library_init_mem(ARES_LIB_INIT_ALL, ht_malloc, ht_free, ht_realloc);
-    ares_library_cleanup();
-    ht_alloc_installed = 1;
-  }
-}
+/* allocation failures are injected through the driver's allocator (dsa_reg.h):
+ * dsa_alloc_fail_at = n makes the n-th request from now fail, once. */
+#define ht_fail_countdown dsa_alloc_fail_at
 
 /* ---- token buffers ---- */
 #define HT_MAXTOK 4096
@@ -241,7 +212,6 @@ static void run_ht(long k, char *ops)
   size_t               i;
   char                 tmp[256];
 
-  ht_install_alloc();
   ht_tok_reset();
   ht_nfreed        = 0;
   ht_collect_freed = 0;
